@@ -94,14 +94,22 @@ def _from_soap(in_envelope_xml, xmlids=None, **kwargs):
 
 def _parse_xml_string(xml_string, parser, charset=None):
     xml_string = iter(xml_string)
-    chunk = next(xml_string)
+    try:
+        chunk = next(xml_string)
+    except StopIteration:
+        raise Fault('Client.XMLSyntaxError', 'Empty request')
+
     if isinstance(chunk, six.binary_type):
         string = b''.join(chain( (chunk,), xml_string ))
     else:
         string = ''.join(chain( (chunk,), xml_string ))
 
     if charset:
-        string = string.decode(charset)
+        try:
+            string = string.decode(charset)
+        except (UnicodeDecodeError, LookupError) as e:
+            # the request is not in the charset its Content-Type announces
+            raise Fault('Client.XMLSyntaxError', str(e))
 
     try:
         try:
